@@ -94,10 +94,10 @@ theorem serves_modern : ∀ p ∈ Gen.contextPaths, negotiate (range p) ⟨Ver.t
 
 /-- the PyOpenSSL pump: as long as no read completed the handshake there is no inner protocol,
     hence no handler call and no application byte -/
-theorem inner_needs_final (cfg : Srv.Cfg) (evs : List Srv.PEv) (h : ∀ e ∈ evs, e.noFinal) :
-    (Srv.pumpRun cfg evs).inner = none ∧ Srv.plainOut (Srv.pumpRun cfg evs) = [] ∧ Srv.PumpTls.handlerCalls (Srv.pumpRun cfg evs) = 0 := by
-  have hp := Srv.PumpTls.run_pre cfg evs {} Srv.PumpTls.pre_init h
-  exact ⟨hp.1, Srv.PumpTls.pre_plainOut _ hp⟩
+theorem inner_needs_final (cfg : Srv.Cfg) (evs : List Srv.PEv) (h : ∀ e ∈ evs, Misc.PumpTls.noFinal e) :
+    (Srv.pumpRun cfg evs).inner = none ∧ Srv.plainOut (Srv.pumpRun cfg evs) = [] ∧ Misc.PumpTls.handlerCalls (Srv.pumpRun cfg evs) = 0 := by
+  have hp := Misc.PumpTls.run_pre cfg evs {} Misc.PumpTls.pre_init h
+  exact ⟨hp.1, Misc.PumpTls.pre_plainOut _ hp⟩
 
 /-- no service without TLS: a read that carries anything but handshake records (`bad` = plaintext,
     garbage, an alert; also application data or a close-notify) before the handshake completed closes
@@ -106,17 +106,17 @@ theorem inner_needs_final (cfg : Srv.Cfg) (evs : List Srv.PEv) (h : ∀ e ∈ ev
     no application byte leaves -/
 theorem no_plaintext (cfg : Srv.Cfg) (before : List Srv.PEv) (pre : List Srv.Item) (x : Srv.Item)
     (rest : List Srv.Item) (after : List Srv.PEv)
-    (hb : ∀ e ∈ before, e.noFinal) (hpre : ∀ i ∈ pre, i.isHs = true)
-    (hx : x.isHs = false ∧ x.isFinal = false) :
+    (hb : ∀ e ∈ before, Misc.PumpTls.noFinal e) (hpre : ∀ i ∈ pre, Misc.PumpTls.isHs i = true)
+    (hx : Misc.PumpTls.isHs x = false ∧ Misc.PumpTls.isFinal x = false) :
     let p := Srv.pumpRun cfg (before ++ [Srv.PEv.read (pre ++ x :: rest)] ++ after)
-    p.inner = none ∧ Srv.plainOut p = [] ∧ Srv.PumpTls.handlerCalls p = 0 ∧ (p.tcpClosed = true ∨ p.lost = true) := by
+    p.inner = none ∧ Srv.plainOut p = [] ∧ Misc.PumpTls.handlerCalls p = 0 ∧ (p.tcpClosed = true ∨ p.lost = true) := by
   intro p
-  have h1 := Srv.PumpTls.run_pre cfg before {} Srv.PumpTls.pre_init hb
-  have h2 := Srv.PumpTls.step_reject cfg _ h1 pre x rest hpre hx
-  have h3 := Srv.PumpTls.run_dead cfg after _ h2
-  have hp : Srv.PumpTls.Dead p := by
+  have h1 := Misc.PumpTls.run_pre cfg before {} Misc.PumpTls.pre_init hb
+  have h2 := Misc.PumpTls.step_reject cfg _ h1 pre x rest hpre hx
+  have h3 := Misc.PumpTls.run_dead cfg after _ h2
+  have hp : Misc.PumpTls.Dead p := by
     simpa [p, Srv.pumpRun, List.foldl_append] using h3
-  exact ⟨hp.1.1, (Srv.PumpTls.pre_plainOut p hp.1).1, (Srv.PumpTls.pre_plainOut p hp.1).2, hp.2⟩
+  exact ⟨hp.1.1, (Misc.PumpTls.pre_plainOut p hp.1).1, (Misc.PumpTls.pre_plainOut p hp.1).2, hp.2⟩
 
 /-- re-export of the pump invariant (`Srv.PumpProof`): for EVERY event list, an inner protocol implies a completed handshake -/
 theorem inner_after_handshake (cfg : Srv.Cfg) (evs : List Srv.PEv) :
@@ -139,5 +139,5 @@ example : negotiate ⟨.tls10, .tls13⟩ ⟨.tls10, .tls11⟩ = some .tls11 := b
 example (cfg : Srv.Cfg) : (Srv.pumpRun cfg [.read [.hs, .hsFinal]]).inner.isSome = true := by rfl
 example (cfg : Srv.Cfg) : (Srv.pumpRun cfg [.read [.hs], .read [.bad], .read [.hsFinal]]).inner.isSome = false := by rfl
 example (cfg : Srv.Cfg) : (Srv.pumpRun cfg [.read [.hs], .read [.bad]]).tcpClosed = true := by rfl
-example : (Srv.PEv.read [.hs, .bad, .app [1]]).noFinal := by simp [Srv.PEv.noFinal, Srv.Item.isFinal]
+example : Misc.PumpTls.noFinal (Srv.PEv.read [.hs, .bad, .app [1]]) := by simp [Misc.PumpTls.noFinal, Misc.PumpTls.isFinal]
 end NauyacaVerif.C20
